@@ -50,8 +50,9 @@ func (k *Keys) GetCursorPos() (x, y int) {
 		// Everything around the cursor response is user input, which might
 		// have been typed before or after the terminal answered our query.
 		report, input := k.extractCursorPos(cursor)
+		hasInput := len(input) > 0
 
-		if len(input) > 0 {
+		if input = k.convertMeta(input); len(input) > 0 {
 			k.mutex.RLock()
 			k.buf = append(k.buf, input...)
 			k.mutex.RUnlock()
@@ -61,7 +62,7 @@ func (k *Keys) GetCursorPos() (x, y int) {
 		match = rxRcvCursorPos.FindAllStringSubmatch(string(report), 1)
 
 		// If there is something but not cursor answer, its user input.
-		if len(match) == 0 && len(input) > 0 {
+		if len(match) == 0 && hasInput {
 			continue
 		}
 
